@@ -204,6 +204,12 @@ def evaluate(case, louts, ctx):
             ms = ms + [NUMERIC[n] for n in meas]
             _compare_parts(findings, "partition3d", cube.partitions[k], c2.partitions[0], ms, "table element %d" % k)
             firsts.append(repr(_get(cube.partitions[k], "counts")))
+            # names: "<table variable name>: <label of table element k>"; tab_label only for a CA table dimension
+            if T.kind in ("cat", "cat_date", "mr", "text"):
+                lab = (T.items[T.valid_item_pos[k]]["name"] if T.is_array else T.cats[T.valid_cat_pos[k]]["name"])
+                sc.compare(findings, "spec", "partition3d.table_name", _get(cube.partitions[k], "table_name"),
+                           "%s: %s" % (T.alias.upper(), lab), "k=%d" % k)
+                sc.compare(findings, "spec", "partition3d.tab_label", _get(cube.partitions[k], "tab_label"), "", "k=%d" % k)
             if louts:
                 api, spec = louts[2 * k], louts[2 * k + 1]
                 sl = cube.partitions[k]
@@ -231,6 +237,10 @@ def evaluate(case, louts, ctx):
             c2 = Cube(gen.cube_response([cv, X], rs, w), population=pop)
             ms = [m for m in SLICE_MEASURES if m not in ("population_counts",)]
             _compare_parts(findings, "partition-ca-item", cube.partitions[k], c2.partitions[0], ms, "CA item %d" % k)
+            item = ca.items[ca.valid_item_pos[k]]
+            sc.compare(findings, "spec", "partition-ca-item.tab_label", _get(cube.partitions[k], "tab_label"), item["name"], "k=%d" % k)
+            sc.compare(findings, "spec", "partition-ca-item.table_name", _get(cube.partitions[k], "table_name"),
+                       "%s: %s" % (ca.alias.upper(), item["name"]), "k=%d" % k)
             firsts.append(repr(_get(cube.partitions[k], "counts")))
         if len(set(firsts)) >= 2:
             key = (fam, tuple(v.kind for v in vars_), firsts[0])
